@@ -14,12 +14,12 @@ import (
 	"github.com/cosmos/cosmos-sdk/crypto/keys/secp256k1"
 	sdk "github.com/cosmos/cosmos-sdk/types"
 	authtypes "github.com/cosmos/cosmos-sdk/x/auth/types"
+	"github.com/cosmos/cosmos-sdk/x/auth/vesting"
+	vestingtypes "github.com/cosmos/cosmos-sdk/x/auth/vesting/types"
 	banktypes "github.com/cosmos/cosmos-sdk/x/bank/types"
 	distrtypes "github.com/cosmos/cosmos-sdk/x/distribution/types"
 	govtypes "github.com/cosmos/cosmos-sdk/x/gov/types"
 	govv1 "github.com/cosmos/cosmos-sdk/x/gov/types/v1"
-	vestingtypes "github.com/cosmos/cosmos-sdk/x/auth/vesting/types"
-	"github.com/cosmos/cosmos-sdk/x/auth/vesting"
 	burntypes "github.com/medibloc/panacea-core/v2/x/burn/types"
 )
 
@@ -398,6 +398,58 @@ func monSendDisabled(s *Stream) {
 	}
 }
 
+// monWholeSupply: the whole remaining supply of a denomination arrives at the burn address (the last units of a voucher,
+// a denomination with a single holder): it is burned like any other amount — burn address empty, supply zero.
+func monWholeSupply(s *Stream) {
+	s.Emit("mon.c07.whole-supply", guard(func() string {
+		old := genesisExtraCoins
+		genesisExtraCoins = nil
+		defer func() { genesisExtraCoins = old }()
+		burnAddr := sdk.MustAccAddressFromBech32(burntypes.BurnAddress)
+		A := newAcct("A", []byte("ws-A"))
+		c, err := NewChain(memDB(), tmpHome(), []*Acct{A}, 1000000, nil)
+		if err != nil {
+			return "pass #no-chain"
+		}
+		const voucher = "ibc/27394FB092D2ECCD56123C74F36E4C1F926001CEADA9CA97EA622B25F41E5EB2"
+		t := c.Time.Add(5 * time.Second)
+		c.Begin(t)
+		ctx := c.DeliverCtx()
+		coins := sdk.NewCoins(sdk.NewInt64Coin(voucher, 1000))
+		if err := c.App.BankKeeper.MintCoins(ctx, "mint", coins); err != nil {
+			return "pass #cannot-mint " + err.Error()
+		}
+		if err := c.App.BankKeeper.SendCoinsFromModuleToAccount(ctx, "mint", A.Addr, coins); err != nil {
+			return "pass #cannot-fund " + err.Error()
+		}
+		c.End()
+		c.Commit()
+		for _, part := range []int64{400, 600} { // a part, then everything that is left
+			t = t.Add(5 * time.Second)
+			c.Begin(t)
+			ctx = c.DeliverCtx()
+			sup0 := c.App.BankKeeper.GetSupply(ctx, voucher).Amount
+			fee0 := c.App.BankKeeper.GetSupply(ctx, feeDenom).Amount
+			if err := c.App.BankKeeper.SendCoins(ctx, A.Addr, burnAddr, sdk.NewCoins(sdk.NewInt64Coin(voucher, part), sdk.NewInt64Coin(feeDenom, 9))); err != nil {
+				return "pass #cannot-send " + err.Error()
+			}
+			c.End()
+			ctx = c.DeliverCtx()
+			if left := c.App.BankKeeper.SpendableCoins(ctx, burnAddr); !left.IsZero() {
+				return "fail #burn-address-not-empty-at-end-of-block " + left.String()
+			}
+			if got := sup0.Sub(c.App.BankKeeper.GetSupply(ctx, voucher).Amount); !got.Equal(sdk.NewInt(part)) {
+				return "fail #supply-did-not-shrink-by-what-reached-the-burn-address shrank=" + got.String()
+			}
+			if got := fee0.Sub(c.App.BankKeeper.GetSupply(ctx, feeDenom).Amount); !got.Equal(sdk.NewInt(9)) {
+				return "fail #supply-did-not-shrink-by-what-reached-the-burn-address"
+			}
+			c.Commit()
+		}
+		return "pass"
+	}))
+}
+
 func init() {
 	streams["burn"] = func(dir string, rng *rand.Rand, n int, tier string) {
 		s := NewStream(dir, "burn")
@@ -406,6 +458,7 @@ func init() {
 		monModuleAccountRecipient(s, "mon.c07.module-account-recipient")
 		monInvariantCheckPeriod(s)
 		monSendDisabled(s)
+		monWholeSupply(s)
 		for h := 0; h < n; h++ {
 			burnHistory(s, rng, 10+rng.Intn(25), true)
 		}
